@@ -6,8 +6,8 @@ TwoReasons == {"NewNeighbor", "SyncReport"}
 AllReasons == {"NewNeighbor", "SyncReport", "DirectJoin"}
 \* schedule export: one line per quiescent final state (BFS: one path per distinct state; simulation: every walk)
 Final == Quiescent /\ nd = MaxDials /\ "Capped" \notin bad
-EmitSchedules == Final => PrintT(<<"SCHED", ToJson([syncing |-> SetToSeq(syncing), hist |-> hist])>>)
+EmitSchedules == Final => PrintT(<<"SCHED", ToJson([syncing |-> SetToSeq(syncing0), hist |-> hist])>>)
 \* edge export: one schedule per transition of the state graph (the discovery path of the source state + the action),
 \* so that every (state, action) pair of the model is replayed on the real code at least once
-EmitEdges == ("Capped" \notin bad') => PrintT(<<"SCHED", ToJson([syncing |-> SetToSeq(syncing'), hist |-> hist'])>>)
+EmitEdges == ("Capped" \notin bad') => PrintT(<<"SCHED", ToJson([syncing |-> SetToSeq(syncing0'), hist |-> hist'])>>)
 ====
